@@ -127,7 +127,7 @@ theorem scanSorted_length (ks : List Bytes) (c count : Nat) :
     omega
 
 /-- Progress with an unchanged key list: the cursor strictly increases until it becomes 0. -/
-theorem scanSorted_progress (hg : g.ok) (ks : List Bytes) (c count : Nat) (_hc : c = 0 ∨ c < ks.length) :
+theorem scanSorted_progress (hg : g.ok) (ks : List Bytes) (c count : Nat) :
     (scanSorted g m ks c count).1 = 0 ∨
       (c < (scanSorted g m ks c count).1 ∧ (scanSorted g m ks c count).1 < ks.length) := by
   obtain ⟨n, _, h2, h3, h4⟩ := scanSorted_spec g m hg ks c count
